@@ -6,8 +6,55 @@
 #include <nitro/lang/string_ref.hpp>
 #include <nitro/log/severity.hpp>
 
+#include <nitro/log/attribute/message.hpp>
+#include <nitro/log/attribute/severity.hpp>
+#include <nitro/log/attribute/timestamp.hpp>
+#include <nitro/log/filter/null_filter.hpp>
+#include <nitro/log/log.hpp>
+#include <nitro/log/sink/logfile.hpp>
+#include <nitro/log/sink/null.hpp>
+#include <nitro/log/sink/stderr.hpp>
+#include <nitro/log/sink/stdout.hpp>
+
+#include <fstream>
+#include <iostream>
 #include <sstream>
 #include <stdexcept>
+#include <unistd.h>
+
+namespace nl = nitro::log;
+using SRecord = nl::record<nl::message_attribute, nl::severity_attribute, nl::timestamp_attribute>;
+template <typename R>
+struct BarFormatter
+{
+    std::string format(R& r)
+    {
+        return r.message() + "|";
+    }
+};
+template <typename Sink>
+using SLogger = nl::logger<SRecord, BarFormatter, Sink, nl::filter::null_filter>;
+
+template <typename Sink>
+static void emit_all(const std::vector<std::string>& msgs)
+{
+    for (std::size_t k = 0; k < msgs.size(); k++)
+    {
+        // different severities: the null filter rejects nothing
+        if (k % 2)
+            SLogger<Sink>::warn() << msgs[k];
+        else
+            SLogger<Sink>::info() << msgs[k];
+    }
+}
+static std::string g_logfile;
+static std::string slurp(const std::string& p)
+{
+    std::ifstream f(p, std::ios::binary);
+    std::stringstream ss;
+    ss << f.rdbuf();
+    return ss.str();
+}
 
 using vh::J;
 
@@ -125,6 +172,39 @@ static J run(const J& c)
             at_ok = at_ok && ra.str() == sa && std::string(ra) == sa;
         }
         o.set("at_ok", J(at_ok));
+    }
+    else if (kind == "sink")
+    {
+        std::vector<std::string> msgs;
+        for (auto& x : c["b"].a)
+            msgs.push_back(x.str());
+        const std::string sk = c["a"].str();
+        std::stringstream out, err;
+        auto* ob = std::cout.rdbuf(out.rdbuf());
+        auto* eb = std::cerr.rdbuf(err.rdbuf());
+        std::string before = g_logfile.empty() ? "" : slurp(g_logfile);
+        if (sk == "stdout")
+            emit_all<nl::sink::StdOut>(msgs);
+        else if (sk == "stderr")
+            emit_all<nl::sink::StdErr>(msgs);
+        else if (sk == "null")
+            emit_all<nl::sink::Null>(msgs);
+        else
+        {
+            if (g_logfile.empty())
+            {
+                g_logfile = "/tmp/verif_misc_log_" + std::to_string(getpid()) + ".txt";
+                nl::sink::Logfile::log_file() = g_logfile; // before the first record: the stream is opened once
+            }
+            emit_all<nl::sink::Logfile>(msgs);
+        }
+        std::cout.rdbuf(ob);
+        std::cerr.rdbuf(eb);
+        std::string after = g_logfile.empty() ? "" : slurp(g_logfile);
+        std::string file_new = after.size() >= before.size() ? after.substr(before.size()) : "<file shrank>";
+        std::string mine = sk == "stdout" ? out.str() : sk == "stderr" ? err.str() : sk == "logfile" ? file_new : "";
+        std::string others = (sk == "stdout" ? "" : out.str()) + (sk == "stderr" ? "" : err.str()) + (sk == "logfile" ? "" : file_new);
+        o.set("bytes", mine).set("elsewhere", others);
     }
     else
     {
